@@ -274,3 +274,11 @@ def t_flag_helpers(world):
 _t10z = tasks
 def tasks(tier):
     return _t10z(tier) + [('flag_helpers', t_flag_helpers)]
+
+
+
+# ---------------------------------------------------------------- shared with C08.b: the Anchor constraint sets of this property's instructions (signer role, has_one = group, vault / PDA bindings)
+_t_shared_structs = tasks
+def tasks(tier):
+    from specs.C08 import shared_struct_tasks
+    return _t_shared_structs(tier) + shared_struct_tasks('C10.h.', ['StartLiquidation', 'EndLiquidation', 'StartDeleverage', 'EndDeleverage', 'InitLiquidationRecord', 'LendingAccountWithdraw', 'LendingAccountRepay'])
